@@ -1,0 +1,24 @@
+//go:build verif
+
+// Machine-checked contracts for package stack. This file contains comments
+// only; it is compiled only with the "verif" build tag and adds no code.
+// The contracts are read by the verification-condition generator under
+// /verif (see /verif/DESIGN.md). Keys are function names and loop ordinals,
+// never line numbers.
+
+package stack
+
+//@ spec pow10(k int) int = k <= 0 ? 1 : k == 1 ? 10 : k == 2 ? 100 : k == 3 ? 1000 : k == 4 ? 10000 : k == 5 ? 100000 : k == 6 ? 1000000 : k == 7 ? 10000000 : k == 8 ? 100000000 : k == 9 ? 1000000000 : k == 10 ? 10000000000 : k == 11 ? 100000000000 : k == 12 ? 1000000000000 : k == 13 ? 10000000000000 : k == 14 ? 100000000000000 : k == 15 ? 1000000000000000 : k == 16 ? 10000000000000000 : k == 17 ? 100000000000000000 : 1000000000000000000
+//@ spec decval(s []byte, k int) int = k <= 0 ? 0 : decval(s, k-1)*10 + (s[k-1] - 48)
+//@ pred isDigit(c int) = 48 <= c && c <= 57
+
+//@ func atou
+//@   option overflow=on
+//@   modifies nothing
+//@   ensures [atouValue C01] result1 ==> result0 == decval(s, len(s)) && 0 <= result0 && result0 < pow10(len(s))
+//@   ensures [atouOk C01] result1 <==> (0 < len(s) && len(s) < 19 && forall k :: 0 <= k && k < len(s) ==> isDigit(s[k]))
+//@   ensures [atouFail C01] !result1 ==> result0 == 0
+//@   loop 0: invariant -1 <= rangeindex && rangeindex < len(s) && len(s) < 19
+//@   loop 0: invariant n == decval(s, rangeindex+1) && 0 <= n && n < pow10(rangeindex+1)
+//@   loop 0: invariant forall k :: 0 <= k && k <= rangeindex ==> isDigit(s[k])
+//@   loop 0: decreases len(s) - rangeindex
